@@ -805,7 +805,7 @@ func replayFile(opts Options, file string) int {
 	return 0
 }
 
-func selfcheck(opts Options) int { return 0 }
+
 
 // addrSig characterises a heap read by its array and the last field step of its address.
 func addrSig(t *Term) string {
